@@ -122,6 +122,14 @@ Theorem C10_F28_sections_not_sorted_witness :
 Proof. exact ScannerProofs.sections_not_sorted_witness. Qed.
 Print Assumptions C10_F28_sections_not_sorted_witness.
 
+
+(* the prefix buffer length of the model is QS_BUF_LEN of src/pe64/scanner.rs, regenerated on every run *)
+From PV.gen Require Consts.
+From PV.Proofs Require ConstsAgree.
+Theorem C10_constants_match_source : N.of_nat Scanner.QS_BUF_LEN = Consts.K_QS_BUF_LEN.
+Proof. exact ConstsAgree.scanner_consts. Qed.
+Print Assumptions C10_constants_match_source.
+
 Example C10_nonvacuous :
   let v := wit_view true 1536 [{| s_va := 4096; s_vs := 256; s_prd := 1024; s_srd := 256 |};
                                {| s_va := 8192; s_vs := 256; s_prd := 1280; s_srd := 256 |}] in
